@@ -1409,6 +1409,141 @@ theorem cancel_later (b : Bridge) (now : Nat) : Later b (cancelExpired b now) :=
 
 end BridgeLemmas
 
+section SenderLemmas
+
+/-! ### votes enter as claim messages
+
+The histories above are lists of `Attest`-level ops: `Op.vote v …` takes the voting validator as given. The
+histories below are lists of what actually reaches the chain: a claim message is delivered for an account
+(`creator`: what the ante handler authenticated) and NAMES an orchestrator in its body. `lowerS` maps such a
+history to the `Attest`-level history it amounts to (`runS_eq_run`), so every theorem of this file applies to
+it; `flatMap_split` carries positions in the lowered history back to positions in the message history. -/
+
+/-- a step of a history whose votes are claim messages -/
+inductive SOp where
+  /-- a deposit / executed-batch / light-node-sale claim message delivered for account `creator`, naming `orch` -/
+  | msg (creator orch n h eth : Nat) (applicable : Bool) (amount : Nat) (compass : Nat)
+  | tally (power : List (Nat × Nat)) (failing : List (Nat × Nat))
+  | catchUp
+  | override (n : Nat)
+  | activate (c : Nat)
+
+/-- `B`: the bonded validators (= their orchestrator accounts) -/
+def applyS (B : List Nat) (s : St) : SOp → St
+  | .msg c o n h eth ap amt cp => (voteMsg B s c o n h eth ap amt cp).1
+  | .tally p f => tally s (powerOf p) (totalOf p) (faultOf f)
+  | .catchUp => catchUp s
+  | .override n => override s n
+  | .activate c => activate s c
+
+def runS (B : List Nat) (ops : List SOp) : St := ops.foldl (applyS B) St.init
+
+/-- the `Attest`-level ops a step amounts to: a claim message that fails the handlers' gate amounts to nothing -/
+def lowerS (B : List Nat) : SOp → List Op
+  | .msg c o n h eth ap amt cp => if claimGate B c o then [.vote o n h eth ap amt cp] else []
+  | .tally p f => [.tally p f]
+  | .catchUp => [.catchUp]
+  | .override n => [.override n]
+  | .activate c => [.activate c]
+
+theorem claimGate_iff (B : List Nat) (c o : Nat) : claimGate B c o = true ↔ c = o ∧ o ∈ B := by
+  simp [claimGate]
+
+theorem voteMsg_gate (B : List Nat) (s : St) (c o n h eth : Nat) (ap : Bool) (amt cp : Nat) :
+    voteMsg B s c o n h eth ap amt cp = if claimGate B c o then vote s o n h eth ap amt cp else (s, .rejected) := by
+  unfold voteMsg claimGate
+  by_cases h1 : c = o
+  · by_cases h2 : B.contains o = true
+    · simp [h1, h2]
+    · simp [h1, h2]
+  · simp [h1]
+
+theorem applyS_lower (B : List Nat) (s : St) (op : SOp) : applyS B s op = (lowerS B op).foldl apply s := by
+  cases op with
+  | msg c o n h eth ap amt cp =>
+    simp only [applyS, lowerS, voteMsg_gate]
+    by_cases hg : claimGate B c o = true
+    · simp [hg, apply]
+    · simp [hg]
+  | tally p f => rfl
+  | catchUp => rfl
+  | override n => rfl
+  | activate c => rfl
+
+theorem runS_snoc (B : List Nat) (l : List SOp) (op : SOp) : runS B (l ++ [op]) = applyS B (runS B l) op := by
+  simp [runS, List.foldl_append]
+
+theorem flatMap_split {α β : Type} (f : α → List β) : ∀ (l : List α) (pre' : List β) (x : β) (post' : List β),
+    l.flatMap f = pre' ++ x :: post' →
+    ∃ pre op post a b, l = pre ++ op :: post ∧ f op = a ++ x :: b ∧ pre' = pre.flatMap f ++ a ∧
+      post' = b ++ post.flatMap f := by
+  intro l
+  induction l with
+  | nil => intro pre' x post' h; simp at h
+  | cons y ys ih =>
+    intro pre' x post' h
+    rw [List.flatMap_cons] at h
+    rcases List.append_eq_append_iff.mp h with ⟨a', h1, h2⟩ | ⟨c', h1, h2⟩
+    · obtain ⟨pre, op, post, a, b, e1, e2, e3, e4⟩ := ih a' x post' h2
+      exact ⟨y :: pre, op, post, a, b, by simp [e1], e2, by simp [h1, e3, List.flatMap_cons], e4⟩
+    · cases c' with
+      | nil =>
+        simp only [List.nil_append] at h2
+        obtain ⟨pre, op, post, a, b, e1, e2, e3, e4⟩ := ih [] x post' h2.symm
+        refine ⟨y :: pre, op, post, a, b, by simp [e1], e2, ?_, e4⟩
+        rw [List.flatMap_cons, List.append_assoc, ← e3, h1]
+        simp
+      | cons z zs =>
+        simp only [List.cons_append, List.cons.injEq] at h2
+        obtain ⟨rfl, h2⟩ := h2
+        exact ⟨[], y, ys, pre', zs, by simp, h1, by simp, h2⟩
+
+theorem singleton_eq_append_cons {α : Type} {y x : α} {a b : List α} (h : [y] = a ++ x :: b) :
+    a = [] ∧ b = [] ∧ y = x := by
+  cases a with
+  | nil => simp at h; exact ⟨rfl, h.2, h.1⟩
+  | cons a0 as => simp at h
+
+theorem runS_eq_run (B : List Nat) (ops : List SOp) : runS B ops = run (ops.flatMap (lowerS B)) := by
+  induction ops using rev_induction with
+  | hnil => rfl
+  | hsnoc l op ih =>
+    rw [runS_snoc, applyS_lower, ih, List.flatMap_append, run_append]
+    simp
+
+/-- the history contains a claim message for claim `(n, h)` at remote height `eth` that was delivered for
+validator `v`'s OWN account, names `v`, and was accepted -/
+def SentIn (B : List Nat) (ops : List SOp) (v n h eth : Nat) : Prop :=
+  ∃ pre ap amt cp post, ops = pre ++ SOp.msg v v n h eth ap amt cp :: post ∧ v ∈ B ∧
+    (voteMsg B (runS B pre) v v n h eth ap amt cp).2 = .ok
+
+/-- an accepted `Attest` of the lowered history is a claim message the validator itself sent -/
+theorem votedIn_lower (B : List Nat) (ops : List SOp) (v n h eth : Nat)
+    (hv : VotedIn (ops.flatMap (lowerS B)) v n h eth) : SentIn B ops v n h eth := by
+  obtain ⟨pre', ap, amt, cp, post', he, hok⟩ := hv
+  obtain ⟨pre, op, post, a, b, e1, e2, e3, _⟩ := flatMap_split (lowerS B) ops pre' _ post' he
+  cases op with
+  | msg c o n0 h0 eth0 ap0 amt0 cp0 =>
+    simp only [lowerS] at e2
+    by_cases hg : claimGate B c o = true
+    · rw [if_pos hg] at e2
+      obtain ⟨ha, _, hx⟩ := singleton_eq_append_cons e2
+      obtain ⟨hco, hoB⟩ := (claimGate_iff B c o).mp hg
+      cases hx
+      subst hco ha
+      refine ⟨pre, ap, amt, cp, post, e1, hoB, ?_⟩
+      have hr : run pre' = runS B pre := by rw [e3, runS_eq_run]; simp
+      rw [voteMsg_gate, if_pos hg, ← hr]
+      exact hok
+    · rw [if_neg hg] at e2
+      simp at e2
+  | tally p f => simp only [lowerS] at e2; have := (singleton_eq_append_cons e2).2.2; cases this
+  | catchUp => simp only [lowerS] at e2; have := (singleton_eq_append_cons e2).2.2; cases this
+  | override n1 => simp only [lowerS] at e2; have := (singleton_eq_append_cons e2).2.2; cases this
+  | activate c1 => simp only [lowerS] at e2; have := (singleton_eq_append_cons e2).2.2; cases this
+
+end SenderLemmas
+
 /-! ## Property theorems (C02) -/
 
 /-- the invariant holds after every history -/
@@ -2632,5 +2767,131 @@ example :
 
 /-- `additionalPatchChecks`: a claim reported at a remote height at / after the timeout of the open batch is refused -/
 example : (voteExec expiryDemo 5 1 79 1600 1 1).2 = .rejected ∧ (voteExec expiryDemo 5 1 79 1599 1 1).2 = .ok := by decide
+
+/-! ### who cast the votes (claim messages) -/
+
+/-- **foreign_claim_message_is_refused** ("validators … have EACH voted"). A claim message delivered for an
+account other than the one it names as orchestrator changes nothing: naming a validator gives nobody that
+validator's vote. (All three claim handlers: deposit and light-node sale through `voteMsg`, executed batch
+through `voteExecMsg`.) -/
+theorem foreign_claim_message_is_refused (B : List Nat) (s : St) (b : Sky) (c o n h eth id : Nat) (ap : Bool)
+    (amt cp : Nat) (hne : c ≠ o) :
+    voteMsg B s c o n h eth ap amt cp = (s, .rejected) ∧ voteExecMsg B b c o n h eth id cp = (b, .rejected) := by
+  simp [voteMsg, voteExecMsg, hne]
+
+/-- **claim_message_naming_non_validator_is_refused.** … and so does one that names (and is delivered for)
+an account that is no bonded validator. -/
+theorem claim_message_naming_non_validator_is_refused (B : List Nat) (s : St) (b : Sky) (c o n h eth id : Nat)
+    (ap : Bool) (amt cp : Nat) (hnb : o ∉ B) :
+    voteMsg B s c o n h eth ap amt cp = (s, .rejected) ∧ voteExecMsg B b c o n h eth id cp = (b, .rejected) := by
+  by_cases hne : c = o <;> simp [voteMsg, voteExecMsg, hne, hnb]
+
+/-- **own_claim_message_is_attest.** A bonded validator's own claim message is exactly `Attest` (resp.
+`additionalPatchChecks` + `Attest`) for that validator: the gate loses no honest vote. -/
+theorem own_claim_message_is_attest (B : List Nat) (s : St) (b : Sky) (v n h eth id : Nat) (ap : Bool)
+    (amt cp : Nat) (hb : v ∈ B) :
+    voteMsg B s v v n h eth ap amt cp = vote s v n h eth ap amt cp ∧
+      voteExecMsg B b v v n h eth id cp = voteExec b v n h eth id cp := by
+  simp [voteMsg, voteExecMsg, hb]
+
+/-- **message_histories_are_attest_histories.** A history of claim messages, tallies, catch-ups and resets is
+the `Attest`-level history of the messages that pass the handlers' gate — every theorem of this file about
+`run` holds for `runS`. -/
+theorem message_histories_are_attest_histories (B : List Nat) (ops : List SOp) :
+    runS B ops = run (ops.flatMap (lowerS B)) := runS_eq_run B ops
+
+/-- **stored_votes_were_sent_by_the_validator_itself.** Every validator in the vote list of a stored
+attestation is bonded and has, earlier in the history, a claim message for exactly that claim `(nonce, hash)`
+at exactly the stored remote height that was delivered for ITS OWN account and was accepted. -/
+theorem stored_votes_were_sent_by_the_validator_itself (B : List Nat) (ops : List SOp) :
+    ∀ a ∈ (runS B ops).atts, ∀ v ∈ a.votes, SentIn B ops v a.nonce a.hash a.eth := by
+  intro a ha v hv
+  rw [runS_eq_run] at ha
+  exact votedIn_lower B ops v _ _ _ (votes_were_cast _ a ha v hv)
+
+/-- **effect_requires_validators_own_messages** ("takes effect only after validators that together hold more
+than 66 % of the current bonded voting power have EACH voted for that identical claim"), over histories of
+claim messages. Every claim that ever took effect was appended to the log by a tally step of the history;
+its voters were pairwise distinct, held more than 66 % of that tally's total, and EVERY ONE of them is a
+bonded validator that had itself — a message delivered for its own account — sent an accepted claim message
+for the very same claim `(nonce, hash)` at the same remote height before that tally. No message delivered
+for another account, whatever orchestrator it names, contributes a vote. -/
+theorem effect_requires_validators_own_messages (B : List Nat) (ops : List SOp) :
+    ∀ o ∈ (runS B ops).log, ∃ pre p f post, ops = pre ++ SOp.tally p f :: post ∧
+      o.voters.Nodup ∧
+      100 * (o.voters.map (powerOf p)).sum > 66 * totalOf p ∧
+      (∀ v ∈ o.voters, v ∈ B ∧ SentIn B pre v o.nonce o.hash o.eth) ∧
+      o ∉ (runS B pre).log := by
+  intro o ho
+  rw [runS_eq_run] at ho
+  obtain ⟨pre', p, f, post', he, hnd, hq, _, hvoted, _, hnot, _, _⟩ := effect_requires_quorum _ o ho
+  obtain ⟨pre, op, post, a, b, e1, e2, e3, _⟩ := flatMap_split (lowerS B) ops pre' _ post' he
+  have key : op = SOp.tally p f ∧ a = [] := by
+    cases op with
+    | msg c o1 n0 h0 eth0 ap0 amt0 cp0 =>
+      simp only [lowerS] at e2
+      by_cases hg : claimGate B c o1 = true
+      · rw [if_pos hg] at e2; have := (singleton_eq_append_cons e2).2.2; cases this
+      · rw [if_neg hg] at e2; simp at e2
+    | tally p1 f1 =>
+      simp only [lowerS] at e2
+      obtain ⟨ha, _, hx⟩ := singleton_eq_append_cons e2
+      cases hx
+      exact ⟨rfl, ha⟩
+    | catchUp => simp only [lowerS] at e2; have := (singleton_eq_append_cons e2).2.2; cases this
+    | override n1 => simp only [lowerS] at e2; have := (singleton_eq_append_cons e2).2.2; cases this
+    | activate c1 => simp only [lowerS] at e2; have := (singleton_eq_append_cons e2).2.2; cases this
+  obtain ⟨rfl, rfl⟩ := key
+  have hpre : pre' = pre.flatMap (lowerS B) := by simpa using e3
+  subst hpre
+  refine ⟨pre, p, f, post, e1, hnd, hq, ?_, ?_⟩
+  · intro v hv
+    have hs := votedIn_lower B pre v _ _ _ (hvoted v hv)
+    have hb : v ∈ B := by
+      obtain ⟨_, _, _, _, _, _, hb, _⟩ := hs
+      exact hb
+    exact ⟨hb, hs⟩
+  · rw [runS_eq_run]; exact hnot
+
+/-- **no_effect_without_validators_own_messages.** If no step of a history is a claim message that a bonded
+validator's own account sent in its own name — whatever else is sent, by whomever, naming whomever —
+nothing ever takes effect. -/
+theorem no_effect_without_validators_own_messages (B : List Nat) (ops : List SOp)
+    (h : ∀ c o n hh e ap am cp, SOp.msg c o n hh e ap am cp ∈ ops → c ≠ o ∨ c ∉ B) :
+    (runS B ops).log = [] := by
+  apply List.eq_nil_iff_forall_not_mem.mpr
+  intro o ho
+  obtain ⟨pre, p, f, post, he, _, hq, hsent, _⟩ := effect_requires_validators_own_messages B ops o ho
+  cases hvs : o.voters with
+  | nil => rw [hvs] at hq; simp at hq
+  | cons v rest =>
+    obtain ⟨hb, pre1, ap, amt, cp, post1, he1, _, _⟩ := hsent v (by rw [hvs]; exact List.mem_cons_self)
+    have hm : SOp.msg v v o.nonce o.hash o.eth ap amt cp ∈ ops := by
+      rw [he, he1]; simp
+    rcases h _ _ _ _ _ _ _ _ hm with h1 | h1
+    · exact h1 rfl
+    · exact h1 hb
+
+/-! claim messages: one account (9, no validator) delivers the claim of event 1 four times, naming validators
+1..4 — nothing is stored, nothing takes effect; the same four validators sending it themselves have it observed -/
+example : (runS [1, 2, 3, 4, 5] [.msg 9 1 1 77 100 true 5 1, .msg 9 2 1 77 100 true 5 1, .msg 9 3 1 77 100 true 5 1,
+      .msg 9 4 1 77 100 true 5 1, .tally fiveTens []]).atts = [] ∧
+    (runS [1, 2, 3, 4, 5] [.msg 2 1 1 77 100 true 5 1, .msg 1 9 1 77 100 true 5 1, .msg 9 9 1 77 100 true 5 1,
+      .tally fiveTens []]).lastObserved = 0 := by decide
+
+example : (runS [1, 2, 3, 4, 5] [.msg 1 1 1 77 100 true 5 1, .msg 2 2 1 77 100 true 5 1, .msg 3 3 1 77 100 true 5 1,
+      .msg 9 5 1 77 100 true 5 1, .msg 4 4 1 77 100 true 5 1, .tally fiveTens []]).log.map (fun o => (o.nonce, o.voters)) =
+    [(1, [1, 2, 3, 4])] := by decide
+
+/-- the hypothesis of `no_effect_without_validators_own_messages` is met by a history with messages in it -/
+example : ∀ c o n hh e ap am cp, SOp.msg c o n hh e ap am cp ∈
+    [SOp.msg 9 1 1 77 100 true 5 1, SOp.msg 2 1 1 77 100 true 5 1, SOp.tally fiveTens []] → c ≠ o ∨ c ∉ [1, 2, 3, 4, 5] := by
+  intro c o n hh e ap am cp hm
+  simp at hm
+  rcases hm with ⟨rfl, rfl, _⟩ | ⟨rfl, rfl, _⟩ <;> simp
+
+example : (voteExecMsg [1, 2, 3, 4, 5] expiryDemo 9 5 1 79 1599 1 1).2 = .rejected ∧
+    (voteExecMsg [1, 2, 3, 4, 5] expiryDemo 5 5 1 79 1599 1 1).2 = .ok := by decide
+
 
 end Paloma.Oracle
